@@ -12,17 +12,23 @@ Definition src_response_core (cf : config) (buf : list N) (rp : response) (arr :
   fin_resp (ifun (g_response_core_body E (S (length buf)) cf buf)
                  (g_response_core_init (p_version rp) (p_code rp) (p_reason rp) (p_hdrs rp) arr arr)
                  (cur_new buf)).
-(* Response::parse_with_config as TRANSLATED; the remaining one-line delegations are pinned by their token text *)
+(* Response::parse_with_config as TRANSLATED; the one-expression delegations are translated too (G14: the gd_ definitions of LibApi.v) *)
 Definition src_response_with_config (cf : config) (buf : list N) (rp : response) : rp_res :=
   fin_respw (ifun (g_response_with_config_body E (S (length buf)) cf buf)
                   (g_response_with_config_init (p_version rp) (p_code rp) (p_reason rp) (p_hdrs rp) [] [])
                   (cur_new buf)).
 Definition src_response_call (e : entry) (cf : config) (buf : list N) (arr : list slot) (rp : response) : rp_res :=
+  (* the public routes through their one-expression delegations AS TRANSLATED (G14): Response::parse,
+     ParserConfig::parse_response, ParserConfig::parse_response_with_uninit_headers (Response has no
+     parse_with_uninit_headers of its own: the harness reaches the default configuration through
+     `ParserConfig::default().parse_response_with_uninit_headers`) *)
+  let Xw := src_response_with_config in
+  let Xc := src_response_core in
   match e with
-  | EParse => src_response_with_config config_default buf rp
-  | EConfig => src_response_with_config cf buf rp
-  | EUninit => src_response_core config_default buf rp arr
-  | EConfigUninit => src_response_core cf buf rp arr
+  | EParse => gd_response_parse Xw Xc buf rp
+  | EConfig => gd_parse_response Xw Xc cf buf rp
+  | EUninit => gd_parse_response_with_uninit_headers Xw Xc config_default buf rp arr
+  | EConfigUninit => gd_parse_response_with_uninit_headers Xw Xc cf buf rp arr
   end.
 
 Hypothesis Efwd : env_fwd E.
@@ -31,7 +37,8 @@ Lemma src_response_core_eq cf buf rp arr : src_response_core cf buf rp arr = res
 Proof. apply tie_response_core. exact Efwd. Qed.
 Lemma src_response_call_eq e cf buf arr rp : src_response_call e cf buf arr rp = response_call E e cf buf arr rp.
 Proof.
-  destruct e; cbn [src_response_call response_call]; unfold src_response_with_config;
+  destruct e; cbn [src_response_call response_call];
+    unfold gd_response_parse, gd_parse_response, gd_parse_response_with_uninit_headers, src_response_with_config;
     rewrite ?src_response_core_eq, ?(tie_response_with_config E Efwd); reflexivity.
 Qed.
 End Src.
